@@ -423,7 +423,7 @@ func emit(p *Prop, pr *PropResult, rr *RunResult, kf []knownFinding, tier string
 		"seed":        seedEnv(),
 		"level":       "other",
 		"coverage": map[string]interface{}{
-			"explanation":         p.Explanation + " NOT DECIDED: " + p.NotDecided,
+			"explanation":         p.Explanation + explanationAddenda[p.ID] + " NOT DECIDED: " + p.NotDecided,
 			"obligations":         len(pr.Obligations),
 			"discharged":          nOK + nKnown,
 			"known_findings":      nKnown,
